@@ -35,7 +35,8 @@ def bal? (s : String) : Option (Nat × Nat) :=
 
 def coin (n : Nat) : Nat := n * 10000000000
 
-/-- constants of the repo's sc.yaml (the Go side checks them against the real global nodes at start-up). -/
+/-- constants of the repo's sc.yaml (min_stake / max_stake of the three contracts, min_stake_per_delegate); a deviation of
+the real configuration shows up as a disagreement on the first lock or dump. -/
 def mkCfg (demeter : Bool) (slash : F64) (minLock : Nat) : Cfg :=
   { owner := 3, killSlash := slash, demeter := demeter,
     minStake := fun k => match k with
